@@ -548,11 +548,13 @@ def _hoist_nested_helper_calls(trees, keep):
     return count
 
 
-def _expand_class_local_duplicates(trees, anchored_owner):
+def _expand_class_local_duplicates(trees, anchored_owner, resolve=None):
     """A private method whose simple name is also defined elsewhere (e.g. a new `RaggedArray._update_len` next to
-    `Array._update_len`) is not eligible for the name-based rounds below.  Inside its own class the calls
-    `self.<name>(...)` are unambiguous: when all of them are statement-level calls, they are inlined and the definition
-    is removed from that class.  `anchored_owner(name, classname)` says which definitions are role-bearing and stay."""
+    `Array._update_len`, or `_truncate` in both classes) is not eligible for the name-based rounds below.  Its calls are
+    attributed to a class: `self.<name>(...)` inside the class itself, any other receiver through `resolve(call)` (the
+    receiver-type resolver of the unexpanded package; None = unknown).  When every mention that belongs to the class is
+    a statement-level call and no mention of the name is of unknown class, the calls are inlined and the definition is
+    removed from that class.  `anchored_owner(name, classname)` says which definitions are role-bearing and stay."""
     done = []
     defs = {}
     for tree in trees.values():
@@ -561,8 +563,41 @@ def _expand_class_local_duplicates(trees, anchored_owner):
                 defs.setdefault(m.name, []).append((c, m))
         for f in [n for n in tree.body if isinstance(n, ast.FunctionDef)]:
             defs.setdefault(f.name, []).append((None, f))
+
+    def owner_of(call_or_attr, enclosing_cls):
+        f = call_or_attr.func if isinstance(call_or_attr, ast.Call) else call_or_attr
+        if isinstance(f, ast.Attribute) and isinstance(f.value, ast.Name) and f.value.id == 'self' and enclosing_cls is not None \
+                and any(isinstance(x, ast.FunctionDef) and x.name == f.attr for x in enclosing_cls.body):
+            return enclosing_cls.name
+        if resolve is not None and isinstance(call_or_attr, ast.Call):
+            return resolve(call_or_attr)
+        return None
     for nm, lst in defs.items():
         if len(lst) < 2 or not _is_private(nm):
+            continue
+        # every mention of the name, with the class it belongs to
+        mentions = []       # (owner class name or None, is statement-level call, container, field, stmt, call, kind)
+        stmt_calls = {}
+        for tree in trees.values():
+            scopes = [(None, tree)] + [(c, c) for c in tree.body if isinstance(c, ast.ClassDef)]
+            for cls_, scope in scopes:
+                funcs = [x for x in scope.body if isinstance(x, ast.FunctionDef)]
+                for fn in funcs:
+                    for n in ast.walk(fn):
+                        for fld in ('body', 'orelse', 'finalbody'):
+                            body = getattr(n, fld, None)
+                            if isinstance(body, list) and body and isinstance(body[0], ast.stmt):
+                                for st in body:
+                                    cl, kind = _stmt_call(st)
+                                    if cl is not None and isinstance(cl.func, ast.Attribute) and cl.func.attr == nm:
+                                        stmt_calls[id(cl.func)] = (n, fld, st, cl, kind, owner_of(cl, cls_))
+                    for n in ast.walk(fn):
+                        if isinstance(n, ast.Attribute) and n.attr == nm:
+                            if id(n) in stmt_calls:
+                                mentions.append(stmt_calls[id(n)])
+                            else:
+                                mentions.append((None, None, None, None, None, '?'))
+        if any(m_[5] in (None, '?') for m_ in mentions):
             continue
         for c, m in lst:
             if c is None or anchored_owner(nm, c.name) or not _eligible_def(m):
@@ -570,40 +605,10 @@ def _expand_class_local_duplicates(trees, anchored_owner):
             h = _Helper(m, c, '')
             if not h.is_method:
                 continue
-            mentions = good = 0
-            for meth in [x for x in c.body if isinstance(x, ast.FunctionDef) and x is not m]:
-                for n in ast.walk(meth):
-                    if isinstance(n, ast.Attribute) and n.attr == nm and isinstance(n.value, ast.Name) and n.value.id == 'self':
-                        mentions += 1
-                for n in ast.walk(meth):
-                    for fld in ('body', 'orelse', 'finalbody'):
-                        body = getattr(n, fld, None)
-                        if isinstance(body, list) and body and isinstance(body[0], ast.stmt):
-                            for st in body:
-                                cl, kind = _stmt_call(st)
-                                if cl is not None and isinstance(cl.func, ast.Attribute) and cl.func.attr == nm and \
-                                        isinstance(cl.func.value, ast.Name) and cl.func.value.id == 'self':
-                                    good += 1
-            if not good or good != mentions:
+            sites = [m_ for m_ in mentions if m_[5] == c.name and m_[2] is not m]
+            if not sites or any(_instantiate(h, cl, kind, st) is None for n, fld, st, cl, kind, _ in sites):
                 continue
-            # trial, then replace
-            ok = True
-            sites = []
-            for meth in [x for x in c.body if isinstance(x, ast.FunctionDef) and x is not m]:
-                for n in ast.walk(meth):
-                    for fld in ('body', 'orelse', 'finalbody'):
-                        body = getattr(n, fld, None)
-                        if isinstance(body, list) and body and isinstance(body[0], ast.stmt):
-                            for st in body:
-                                cl, kind = _stmt_call(st)
-                                if cl is not None and isinstance(cl.func, ast.Attribute) and cl.func.attr == nm and \
-                                        isinstance(cl.func.value, ast.Name) and cl.func.value.id == 'self':
-                                    if _instantiate(h, cl, kind, st) is None:
-                                        ok = False
-                                    sites.append((n, fld, st, cl, kind))
-            if not ok:
-                continue
-            for n, fld, st, cl, kind in sites:
+            for n, fld, st, cl, kind, _ in sites:
                 body = getattr(n, fld)
                 i = [k for k, x in enumerate(body) if x is st]
                 if not i:
@@ -617,12 +622,12 @@ def _expand_class_local_duplicates(trees, anchored_owner):
     return done
 
 
-def expand(trees, keep=frozenset(), anchored_owner=None):
+def expand(trees, keep=frozenset(), anchored_owner=None, resolve=None):
     """trees: {module name: ast.Module}, modified in place.  Returns the sorted list of
     helpers that were inlined (and whose definitions were removed)."""
     inlined = list(_expand_expr_helpers(trees, keep))
     if anchored_owner is not None:
-        inlined.extend(x for x in _expand_class_local_duplicates(trees, anchored_owner) if x not in inlined)
+        inlined.extend(x for x in _expand_class_local_duplicates(trees, anchored_owner, resolve) if x not in inlined)
     _hoist_nested_helper_calls(trees, keep)
     removed, used = _expand_raise_predicates(trees, keep)
     inlined.extend(x for x in used if x not in inlined)
